@@ -1,9 +1,16 @@
 """C14 - building any script terminates with success or a script error (specs/build/Resolve.tla, Mutate.tla).
 
-1. Resolve.tla: TLC checks (with fairness) that the documented link-resolution procedure ends in "resolved" or "error"
-   for every over-graph on up to 4 frames, and prints each graph with its verdict; every graph is written as a script
-   and built: "resolved" graphs must build with exactly the over / under links of the model, all others must be
-   refused (Builder.build returns False for the ResolveError).
+1b. ResolveClones.tla: the same for clone records (`aux moot as mine` inside moot framers, also naming themselves or each
+   other): every uses-graph on up to 3 moots is built; acyclic ones must build with the model's number of clones, a
+   reachable cycle must be refused.
+1. Resolve.tla: TLC checks (with fairness) that the documented link-resolution procedure (over links, then the outline
+   of every frame down its primary unders) ends in "resolved" or "error" for every over-graph on up to 4 frames and, on
+   the well formed over-graphs, every assignment of `under` declarations (a frame below, any other frame, itself, a
+   name no frame has; all of them up to 3 frames, at most MaxUnders declarations on 4 frames), and prints each graph
+   with its verdict; every graph is written as a script and built: "resolved" graphs with consistent declarations must
+   build with exactly the over / under / primary-under links of the model, graphs with an ill formed over link, a
+   dangling under or a loop of primary unders must be refused (Builder.build returns False for the ResolveError),
+   an acyclic but inconsistent `under` may build or be refused - but every build must return.
 2. Mutate.tla: every command form of the token-level grammar is built once unmutated (must succeed); TLC -simulate
    then writes scripts from the grammar and from the word streams of the example plans and damages them with the
    mutation actions; each is built and its outcome must be in the model's Allowed set.
@@ -32,11 +39,11 @@ MUTATIONS = ["Delete", "Duplicate", "Swap", "ReplaceReserved", "ReplaceGarbage",
 
 # ---------------------------------------------------------------- children
 
-def _run_job(scripts, work, tag, frames=""):
+def _run_job(scripts, work, tag, frames="", stats=False):
     """build `scripts` in order in child processes; returns list of result dicts (outcome "timeout" for a hang)"""
     jobfile = os.path.join(work, "job-%s.json" % tag)
     with open(jobfile, "w") as f:
-        json.dump({"scripts": scripts, "work": work, "frames": frames}, f)
+        json.dump({"scripts": scripts, "work": work, "frames": frames, "stats": stats}, f)
     results = [None] * len(scripts)
     nxt = 0
     ntimeouts = 0
@@ -116,14 +123,14 @@ def _run_job(scripts, work, tag, frames=""):
     return results
 
 
-def build_all(scripts, work, nproc, tag, frames=""):
+def build_all(scripts, work, nproc, tag, frames="", stats=False):
     """shard over nproc children; order of results = order of scripts"""
     if not scripts:
         return []
     nproc = max(1, min(nproc, (len(scripts) + 49) // 50))
     shards = [scripts[i::nproc] for i in range(nproc)]
     with ThreadPoolExecutor(max_workers=nproc) as ex:
-        parts = list(ex.map(lambda a: _run_job(a[1], work, "%s%d" % (tag, a[0]), frames), enumerate(shards)))
+        parts = list(ex.map(lambda a: _run_job(a[1], work, "%s%d" % (tag, a[0]), frames, stats), enumerate(shards)))
     out = [None] * len(scripts)
     for k, part in enumerate(parts):
         out[k::nproc] = part
@@ -183,6 +190,9 @@ def graph_script(g):
             s += " in %s" % names[o - 1]
         lines.append(s)
         lines.append("print %s" % names[i])
+        u = (g.get("under") or [0] * g["nf"])[i]
+        if u:
+            lines.append("under %s" % ("nowhere" if u == g["nf"] + 1 else names[u - 1]))
     return "\n".join(lines) + "\n"
 
 
@@ -191,47 +201,114 @@ def emitted(res):
 
 
 def part_resolve(ctx, work, nproc):
-    with ThreadPoolExecutor(max_workers=2) as ex:
-        f1 = ex.submit(tlc.run, "Resolve", SPEC_DIR + "/Resolve_live.cfg", spec_dir=SPEC_DIR, tag="c14live", workers=max(1, env.NCPU // 2))
-        f2 = ex.submit(tlc.run, "Resolve", SPEC_DIR + "/Resolve.cfg", spec_dir=SPEC_DIR, tag="c14res", workers=max(1, env.NCPU // 2))
-        live, res = f1.result(), f2.result()
-    ctx.add_model(live, "Resolve-liveness", {"MaxFrames": 4, "fairness": "WF_vars(Next)"})
-    if not live.ok:
-        ctx.diverge(Divergence("C14", "model", live.error_name or live.error, "Resolve", "the documented resolution procedure does not terminate in the model",
-                               steps=[{"action": a, "state": s} for a, s in live.trace]))
+    consts = {"MaxFrames": 4, "MaxUnderFrames": 3, "MaxUnders": ctx.pick(0, 2)}
+
+    def cfg(name):
+        return open(SPEC_DIR + "/" + name).read().replace("MaxUnders = 0", "MaxUnders = %d" % consts["MaxUnders"])
+
+    # one run: LiveSpec (weak fairness) with the liveness property Termination, the invariants, and the verdicts printed
+    res = tlc.run("Resolve", cfg("Resolve.cfg"), spec_dir=SPEC_DIR, tag="c14res", workers=max(1, env.NCPU // 2))
+    consts["specification"] = "LiveSpec = Spec /\\ WF_vars(Next); PROPERTY Termination"
+    if not res.ok and res.error == "temporal":
+        ctx.add_model(res, "Resolve", consts)
+        ctx.diverge(Divergence("C14", "model", "Termination", "Resolve", "the documented resolution procedure does not terminate in the model",
+                               steps=[{"action": a, "state": s} for a, s in res.trace]))
         return 0
-    ctx.add_model(res, "Resolve", {"MaxFrames": 4})
+    ctx.add_model(res, "Resolve", consts)
     if not res.ok:
         ctx.diverge(Divergence("C14", "model", res.error_name or res.error, "Resolve", "specification property violated in the model",
                                steps=[{"action": a, "state": s} for a, s in res.trace]))
         return 0
-    tlc.require_coverage(res, ["Start", "NextFrame", "Fail", "Climb", "Finish"], "Resolve")
+    tlc.require_coverage(res, ["Start", "NextFrame", "Fail", "Climb", "EndOvers", "TraceStart", "Descend", "TraceFail", "TraceEnd", "Finish"], "Resolve")
     graphs = emitted(res)
     if len(graphs) != res.coverage["Init"][1]:
         raise tlc.TlcError("Resolve: %d verdicts printed for %d graphs" % (len(graphs), res.coverage["Init"][1]))
     kinds = {}
     for g in graphs:
         kinds[g["kind"]] = kinds.get(g["kind"], 0) + 1
-    for k in ("tree", "dangling", "self", "cycle-through-start", "cycle-not-through-start"):
+    for k in ("tree", "dangling", "self", "cycle-through-start", "cycle-not-through-start", "under-dangling", "under-loop",
+              "under-consistent", "under-inconsistent"):
         if not kinds.get(k):
             raise tlc.TlcError("Resolve vacuous: no graph of kind %s" % k)
     scripts = [graph_script(g) for g in graphs]
     results = build_all(scripts, work, nproc, "res", frames="fg")
     for g, s, r in zip(graphs, scripts, results):
-        steps = [{"graph": {"over": g["over"], "kind": g["kind"]}, "script": s}]
+        steps = [{"graph": {"over": g["over"], "under": g["under"], "kind": g["kind"]}, "script": s}]
         action = "resolve:" + g["kind"]
-        if g["result"] == "resolved":
+        if g["result"] == "resolved" and not g["consistent"]:
+            # an `under` naming a frame that is not below: the documentation does not say whether that is an error,
+            # only that building ends
+            judge(ctx, action, {"built", "refused"}, r, steps)
+        elif g["result"] == "resolved":
             if judge(ctx, action, {"built"}, r, steps):
                 n = g["nf"]
-                exp = {"f%d" % (i + 1): ["f%d" % g["over"][i] if g["over"][i] else None, sorted("f%d" % u for u in g["unders"][i])] for i in range(n)}
-                act = {k: [v[0], sorted(v[1])] for k, v in (r.get("frames") or {}).items()}
+                exp = {"f%d" % (i + 1): ["f%d" % g["over"][i] if g["over"][i] else None, sorted("f%d" % u for u in g["unders"][i]),
+                                         "f%d" % g["primary"][i] if g["primary"][i] else None] for i in range(n)}
+                act = {k: [v[0], sorted(set(v[1])), v[1][0] if v[1] else None] for k, v in (r.get("frames") or {}).items()}
                 if exp != act:
-                    ctx.diverge(Divergence("C14", "state-mismatch", action, "frames.over/unders", "resolved links differ: expected %r got %r" % (exp, act),
+                    ctx.diverge(Divergence("C14", "state-mismatch", action, "frames.over/unders/primary", "resolved links differ: expected %r got %r" % (exp, act),
                                            steps=steps, expected=exp, actual=act))
         else:
             judge(ctx, action, {"refused"}, r, steps)
     ctx.add_validated(len(graphs), {"graph": graphs[len(graphs) // 2], "outcome": label_of(results[len(graphs) // 2])})
     ctx.extra["over_graphs"] = kinds
+    return len(graphs)
+
+
+# ---------------------------------------------------------------- part 1b: clone records
+
+def clone_script(g):
+    lines = ["house hk"]
+    for m in range(g["nm"]):
+        lines += ["framer m%d be moot" % (m + 1), "frame m%da" % (m + 1), "print m%d" % (m + 1)]
+        lines += ["aux m%d as mine" % (u + 1) for u in range(g["nm"]) if g["uses"][m][u]]
+    lines += ["framer top be active", "frame t1", "print top"]
+    lines += ["aux m%d as mine" % (u + 1) for u in range(g["nm"]) if g["root"][u]]
+    return "\n".join(lines) + "\n"
+
+
+def clones_model(ctx):
+    maxmoots = ctx.pick(2, 3)
+    cfg = open(SPEC_DIR + "/ResolveClones.cfg").read().replace("MaxMoots = 2", "MaxMoots = %d" % maxmoots)
+    return maxmoots, tlc.run("ResolveClones", cfg, spec_dir=SPEC_DIR, tag="c14clones", workers=max(1, env.NCPU // 3))
+
+
+def part_clones(ctx, work, nproc, model):
+    maxmoots, res = model.result()
+    ctx.add_model(res, "ResolveClones", {"MaxMoots": maxmoots, "fairness": "WF_vars(Next)"})
+    if not res.ok:
+        ctx.diverge(Divergence("C14", "model", res.error_name or res.error, "ResolveClones", "specification property violated in the model",
+                               steps=[{"action": a, "state": s} for a, s in res.trace]))
+        return 0
+    tlc.require_coverage(res, ["AnyPresolve", "AnyFail", "Finish"], "ResolveClones")
+    graphs = {}
+    for g in emitted(res):
+        k = json.dumps([g["nm"], g["uses"], g["root"]])
+        if k in graphs and graphs[k]["result"] != g["result"]:
+            raise tlc.TlcError("ResolveClones: two verdicts for one graph %s" % k)
+        graphs[k] = g
+    graphs = list(graphs.values())
+    if len(graphs) != res.coverage["Init"][1]:
+        raise tlc.TlcError("ResolveClones: %d verdicts for %d graphs" % (len(graphs), res.coverage["Init"][1]))
+    kinds = {}
+    for g in graphs:
+        kinds[g["kind"]] = kinds.get(g["kind"], 0) + 1
+    for k in ("acyclic", "self", "mutual"):
+        if not kinds.get(k):
+            raise tlc.TlcError("ResolveClones vacuous: no graph of kind %s" % k)
+    scripts = [clone_script(g) for g in graphs]
+    results = build_all(scripts, work, nproc, "clo", stats=True)
+    for g, s, r in zip(graphs, scripts, results):
+        steps = [{"graph": {"uses": g["uses"], "root": g["root"], "kind": g["kind"]}, "script": s}]
+        action = "clones:" + g["kind"]
+        if g["result"] == "resolved":
+            if judge(ctx, action, {"built"}, r, steps) and r.get("nclones") != g["clones"]:
+                ctx.diverge(Divergence("C14", "state-mismatch", action, "clones", "expected %d clones, built %r" % (g["clones"], r.get("nclones")),
+                                       steps=steps, expected=g["clones"], actual=r.get("nclones")))
+        else:
+            judge(ctx, action, {"refused"}, r, steps)
+    ctx.add_validated(len(graphs), {"clone_graph": graphs[len(graphs) // 2], "outcome": label_of(results[len(graphs) // 2])})
+    ctx.extra["clone_graphs"] = kinds
     return len(graphs)
 
 
@@ -270,7 +347,7 @@ def part_mutate(ctx, work, nproc):
         json.dump({"plans": [p[1] for p in plans]}, f)
     # (a) the grammar itself: the skeleton, every command form once, every plan - unmutated
     # (b) damaged scripts: behaviours from the grammar and from the plans (two simulations so that both are well represented)
-    nsim = ctx.pick(120, 2500)
+    nsim = ctx.pick(100, 2500)
 
     def gram():
         return tlc.run("Mutate", mutate_cfg(1, 0), spec_dir=SPEC_DIR, extra_env={"MUTATE_INPUT": inp}, tag="c14gram",
@@ -337,12 +414,15 @@ def part_mutate(ctx, work, nproc):
 
 
 def run_c14(ctx):
-    ctx.rule = ("1: all over-graphs on 1..4 frames (none / frame / self / dangling per frame), each built; 2: every command form of "
+    ctx.rule = ("1: all over-graphs on 1..4 frames (none / frame / self / dangling per frame) and all clone-record graphs on 1..MaxMoots moot framers, each built; 2: every command form of "
                 "the grammar unmutated, plus TLC -simulate behaviours: a grammar script (0..5 body commands) or an example plan, "
                 "damaged by 0..4 token mutations; distinct = distinct scripts built in child processes")
     work = env.subdir("c14")
     nproc = min(env.NCPU, 8)
-    n1 = part_resolve(ctx, work, nproc)
+    with ThreadPoolExecutor(max_workers=1) as ex:
+        model = ex.submit(clones_model, ctx)        # TLC on the clone graphs runs beside the over-graph part
+        n1 = part_resolve(ctx, work, nproc)
+        n1 += part_clones(ctx, work, nproc, model)
     n2 = part_mutate(ctx, work, nproc)
     ctx.exhaustive = False
     ctx.extra.update({"evaluations": n1 + n2, "distinct_nontrivial": n1 + n2, "wall_clock_limit_s": LIMIT})
